@@ -8,9 +8,15 @@
 // the head of the goroutine dump, the pool instance is abandoned and the run continues with a fresh one.
 //
 // usage: c14 seq    <out.ndjson> <meta.json> <sequences>     random sequential sequences, snapshot per op
-//        c14 ilv    <out.ndjson> <meta.json> <sequences>     promotion suspended inside the verifier while other calls run
-//        c14 conc   <out.ndjson> <meta.json> <runs>          N goroutines, snapshot at quiescence
-//        c14 script <out.ndjson> <meta.json> <script.json>   explicit sequences (replay files)
+//
+//	c14 ilv    <out.ndjson> <meta.json> <sequences>     promotion suspended inside the verifier while other calls run
+//	c14 conc   <out.ndjson> <meta.json> <runs>          N goroutines, snapshot at quiescence
+//	c14 life   <out.ndjson> <meta.json> <scenarios>     the real Start()/ticker/End() with live, sometimes slow subscribers
+//	c14 script <out.ndjson> <meta.json> <script.json>   explicit sequences (replay files)
+//
+// The same source is also built with -race (conc mode): the harness itself must stay free of data races.
+// VERIF_C14_NONCE_BASE=<uint64> shifts every nonce of the universe by that amount inside the real pool (the trace keeps
+// the small ranks): the pool's nonce arithmetic is exercised around 2^63 and 2^64.
 package main
 
 import (
@@ -51,14 +57,30 @@ const nVariants = 2
 type txDef struct {
 	ID     int    `json:"id"`
 	Sender int    `json:"sender"`
-	Nonce  uint64 `json:"nonce"`
+	Nonce  uint64 `json:"nonce"` // rank; the real nonce is nonceBase + rank
 	Fee    uint64 `json:"fee"`
 	Size   int    `json:"size"`
 	tx     *blockchain.Transaction
+	enc    string // encoding of the transaction as built (to notice a transaction the pool changed)
 }
 
-var universe []*txDef          // index = id-1
-var idOf = map[string]int{}    // string(tx.ID) -> id
+var nonceBase uint64
+
+// feeBase (VERIF_C14_FEE_BASE) shifts every fee inside the real pool; the trace keeps the small fees.  Only differences
+// of fees (the replacement rule) mean the same in both worlds: such a run never fills the pool and has no entrance priority.
+var feeBase uint64
+
+// rank maps a real nonce back to the small number the trace uses
+func rank(x uint64) (int64, bool) {
+	d := x - nonceBase
+	if d > 1000 {
+		return 999, false
+	}
+	return int64(d), true
+}
+
+var universe []*txDef           // index = id-1
+var idOf = map[string]int{}     // string(tx.ID) -> id
 var senderOf = map[string]int{} // string(address) -> sender
 
 func buildUniverse() {
@@ -70,14 +92,14 @@ func buildUniverse() {
 					tx := &blockchain.Transaction{
 						Module:          "token",
 						Command:         "transfer",
-						Nonce:           n,
-						Fee:             f,
+						Nonce:           nonceBase + n,
+						Fee:             feeBase + f,
 						SenderPublicKey: pk,
 						Params:          append([]byte{byte(v)}, bytes.Repeat([]byte{0xab}, 59)...),
 						Signatures:      []codec.Hex{bytes.Repeat([]byte{byte(v + 1)}, 64)},
 					}
 					tx.Init()
-					d := &txDef{ID: len(universe) + 1, Sender: s, Nonce: n, Fee: f, Size: tx.Size(), tx: tx}
+					d := &txDef{ID: len(universe) + 1, Sender: s, Nonce: n, Fee: f, Size: tx.Size(), tx: tx, enc: string(tx.Bytes())}
 					universe = append(universe, d)
 					idOf[string(tx.ID)] = d.ID
 					senderOf[string(tx.SenderAddress())] = s
@@ -106,14 +128,39 @@ type stubABI struct {
 	paused   chan struct{}
 	release  chan struct{}
 	jitterRn *rand.Rand
+	// life mode: verifier calls made by goroutines other than the one that runs the harness's current call
+	// (the promotion steps of the pool's own ticker) are counted
+	track   bool
+	opGid   string
+	foreign int
+	everBad map[int]bool // transactions that were answered invalid at least once
 }
 
 func newStub() *stubABI {
-	return &stubABI{verdict: map[int]string{}, paused: make(chan struct{}, 1), release: make(chan struct{})}
+	return &stubABI{verdict: map[int]string{}, paused: make(chan struct{}, 1), release: make(chan struct{}), everBad: map[int]bool{}}
+}
+
+var reGid = regexp.MustCompile(`^goroutine (\d+) `)
+
+func curGid() string {
+	var buf [64]byte
+	n := runtime.Stack(buf[:], false)
+	m := reGid.FindSubmatch(buf[:n])
+	if m == nil {
+		return "?"
+	}
+	return string(m[1])
 }
 
 func (a *stubABI) VerifyTransaction(req *labi.VerifyTransactionRequest) (*labi.VerifyTransactionResponse, error) {
 	id := idOf[string(req.Transaction.ID)]
+	gid := ""
+	a.mu.Lock()
+	track := a.track
+	a.mu.Unlock()
+	if track {
+		gid = curGid()
+	}
 	a.mu.Lock()
 	v := a.verdict[id]
 	if v == "" {
@@ -123,9 +170,16 @@ func (a *stubABI) VerifyTransaction(req *labi.VerifyTransactionRequest) (*labi.V
 	if v == "error" {
 		rec = "invalid" // an ABI error counts as invalid
 	}
+	if rec == "invalid" {
+		a.everBad[id] = true
+	}
 	a.calls = append(a.calls, call{id, rec})
 	a.ncalls++
+	if track && gid != a.opGid {
+		a.foreign++
+	}
 	pause := a.pauseAt > 0 && a.ncalls == a.pauseAt
+	rel := a.release
 	var nap time.Duration
 	if a.jitter {
 		switch a.jitterRn.Intn(4) {
@@ -138,7 +192,7 @@ func (a *stubABI) VerifyTransaction(req *labi.VerifyTransactionRequest) (*labi.V
 	a.mu.Unlock()
 	if pause {
 		a.paused <- struct{}{}
-		<-a.release
+		<-rel
 	}
 	if nap > 0 {
 		time.Sleep(nap)
@@ -156,6 +210,46 @@ func (a *stubABI) VerifyTransaction(req *labi.VerifyTransactionRequest) (*labi.V
 	return &labi.VerifyTransactionResponse{Result: labi.TxVerifyResultOk}, nil
 }
 
+// letGo releases the goroutine held inside the verifier (if any)
+func (a *stubABI) letGo() {
+	a.mu.Lock()
+	close(a.release)
+	a.release = make(chan struct{})
+	a.mu.Unlock()
+}
+
+func (a *stubABI) setPause(n int) {
+	a.mu.Lock()
+	a.pauseAt = n
+	a.mu.Unlock()
+}
+
+func (a *stubABI) setVerdict(id int, v string) {
+	a.mu.Lock()
+	a.verdict[id] = v
+	a.mu.Unlock()
+}
+
+// beginOp: the calling goroutine runs the harness's current call (life mode)
+func (a *stubABI) beginOp() {
+	a.mu.Lock()
+	t := a.track
+	a.mu.Unlock()
+	if !t {
+		return
+	}
+	g := curGid()
+	a.mu.Lock()
+	a.opGid = g
+	a.mu.Unlock()
+}
+
+func (a *stubABI) foreignCalls() int {
+	a.mu.Lock()
+	defer a.mu.Unlock()
+	return a.foreign
+}
+
 func (a *stubABI) takeCalls() []call {
 	a.mu.Lock()
 	defer a.mu.Unlock()
@@ -168,20 +262,49 @@ func (a *stubABI) takeCalls() []call {
 	return c
 }
 
-type stubConn struct{}
+// stubConn: the network.  Publish (the announcement of an accepted transaction) answers as scripted per transaction;
+// the event handler the pool registers for announcements from peers is kept so that the harness can deliver one.
+type stubConn struct {
+	mu        sync.Mutex
+	failFor   map[string]bool // string(tx.Bytes()) -> Publish fails
+	announce  p2p.EventHandler
+	published int
+	failed    int
+}
 
 func (c *stubConn) Broadcast(ctx context.Context, event string, data []byte) error { return nil }
 func (c *stubConn) RegisterRPCHandler(endpoint string, handler p2p.RPCHandler, opts ...p2p.RPCHandlerOption) error {
 	return nil
 }
 func (c *stubConn) RegisterEventHandler(name string, handler p2p.EventHandler, validator p2p.Validator) error {
+	if name == txpool.RPCEventPostTransactionAnnouncement {
+		c.announce = handler
+	}
 	return nil
 }
 func (c *stubConn) ApplyPenalty(pid p2p.PeerID, score int) {}
 func (c *stubConn) RequestFrom(ctx context.Context, peerID p2p.PeerID, procedure string, data []byte) p2p.Response {
 	return *p2p.NewResponse(0, "", nil, errors.New("not connected"))
 }
-func (c *stubConn) Publish(ctx context.Context, topicName string, data []byte) error { return nil }
+func (c *stubConn) Publish(ctx context.Context, topicName string, data []byte) error {
+	c.mu.Lock()
+	defer c.mu.Unlock()
+	c.published++
+	if c.failFor[string(data)] {
+		c.failed++
+		return errors.New("publish failed (scripted)")
+	}
+	return nil
+}
+func (c *stubConn) setFail(enc string, fail bool) {
+	c.mu.Lock()
+	if fail {
+		c.failFor[enc] = true
+	} else {
+		delete(c.failFor, enc)
+	}
+	c.mu.Unlock()
+}
 
 // ---------------------------------------------------------------- pool instance
 
@@ -195,6 +318,7 @@ type poolCfg struct {
 type inst struct {
 	pool *txpool.TransactionPool
 	abi  *stubABI
+	conn *stubConn
 	cfg  poolCfg
 }
 
@@ -209,12 +333,13 @@ func newInst(c poolCfg) *inst {
 	}
 	p := txpool.NewTransactionPool(cfg)
 	abi := newStub()
-	if err := p.Init(context.Background(), silent, nil, nil, &stubConn{}, abi); err != nil {
+	conn := &stubConn{failFor: map[string]bool{}}
+	if err := p.Init(context.Background(), silent, nil, nil, conn, abi); err != nil {
 		panic(err)
 	}
 	// the configuration in effect (SetDefault replaces zero values)
 	eff := poolCfg{Max: cfg.MaxTransactions, Acc: cfg.MaxTransactionsPerAccount, Diff: cfg.MinReplacementFeeDifference, MinP: cfg.MinEntranceFeePriority}
-	return &inst{pool: p, abi: abi, cfg: eff}
+	return &inst{pool: p, abi: abi, conn: conn, cfg: eff}
 }
 
 // ---------------------------------------------------------------- snapshot -> JSON
@@ -233,10 +358,14 @@ type snapJSON struct {
 	Bad []string   `json:"bad"`
 }
 
-func u2i(xs []uint64) []int64 {
+func u2i(xs []uint64, bad map[string]bool) []int64 {
 	r := make([]int64, len(xs))
 	for i, x := range xs {
-		r[i] = int64(x)
+		v, ok := rank(x)
+		if !ok {
+			bad["nonce-outside-the-universe"] = true
+		}
+		r[i] = v
 	}
 	return r
 }
@@ -255,7 +384,7 @@ func convert(s *txpool.VerifPoolSnapshot) *snapJSON {
 			return 0
 		}
 		d := def(id)
-		if v.Nonce != d.Nonce || v.Fee != d.Fee || senderOf[string(v.Sender)] != d.Sender {
+		if v.Nonce != nonceBase+d.Nonce || v.Fee != feeBase+d.Fee || senderOf[string(v.Sender)] != d.Sender {
 			bad[where+"-transaction-mutated"] = true
 		}
 		return id
@@ -284,13 +413,17 @@ func convert(s *txpool.VerifPoolSnapshot) *snapJSON {
 		if string(a.Address) != a.Key {
 			bad["perAccount-key-mismatch"] = true
 		}
-		aj := accJSON{S: sd, Txs: [][2]int64{}, Heap: u2i(a.Nonces), Proc: u2i(a.Processables)}
+		aj := accJSON{S: sd, Txs: [][2]int64{}, Heap: u2i(a.Nonces, bad), Proc: u2i(a.Processables, bad)}
 		for _, v := range a.Transactions {
 			id := look(v, "senderList")
 			if id == 0 {
 				continue
 			}
-			aj.Txs = append(aj.Txs, [2]int64{int64(v.KeyNonce), int64(id)})
+			kn, ok := rank(v.KeyNonce)
+			if !ok {
+				bad["nonce-outside-the-universe"] = true
+			}
+			aj.Txs = append(aj.Txs, [2]int64{kn, int64(id)})
 		}
 		sort.Slice(aj.Txs, func(i, j int) bool { return aj.Txs[i][0] < aj.Txs[j][0] })
 		out.Acc = append(out.Acc, aj)
@@ -301,7 +434,17 @@ func convert(s *txpool.VerifPoolSnapshot) *snapJSON {
 		if id == 0 {
 			continue
 		}
-		out.Q = append(out.Q, [2]int64{int64(id), int64(v.FeePriority)})
+		prio := int64(v.FeePriority)
+		if feeBase != 0 {
+			// the priority of the shifted fee is reported as the priority of the small fee when the pool computed it as
+			// fee / size, as -1 otherwise
+			d := def(id)
+			prio = -1
+			if v.FeePriority == (feeBase+d.Fee)/uint64(d.Size) {
+				prio = int64(d.Fee / uint64(d.Size))
+			}
+		}
+		out.Q = append(out.Q, [2]int64{int64(id), prio})
 	}
 	for k := range bad {
 		out.Bad = append(out.Bad, k)
@@ -321,8 +464,10 @@ type gor struct {
 	id, state, text string
 }
 
+var dumpBuf = make([]byte, 4<<20) // used by the driver goroutine only
+
 func dumpAll() []gor {
-	buf := make([]byte, 4<<20)
+	buf := dumpBuf
 	n := runtime.Stack(buf, true)
 	s := reDur.ReplaceAllString(string(buf[:n]), "")
 	var res []gor
@@ -353,6 +498,7 @@ func quiescent(gs []gor) (bool, string) {
 }
 
 type outcome struct {
+	Waited    bool // returned only after the harness let go of the promotion step it was holding inside the verifier
 	Blocked   bool
 	Panic     string
 	Stack     string   // head of the dump of the goroutines that are stuck / of the panic
@@ -476,10 +622,36 @@ func guarded(f func()) outcome {
 		}
 	}
 	if await(done) {
+		// A call that waits for something the HARNESS holds back is not blocked for ever: let go and wait again.
+		if onBlocked != nil && onBlocked() {
+			if !await(done) {
+				return outcome{Panic: msg, Waited: true}
+			}
+		}
 		st, ch := describeStuck()
 		return outcome{Blocked: true, Stack: st, BlockedIn: ch}
 	}
 	return outcome{Panic: msg}
+}
+
+// onBlocked (ilv mode): releases what the harness itself is holding; returns false when there was nothing to release
+var onBlocked func() bool
+
+// waitQuiescent: every goroutine but the caller is parked (two consecutive samples); false = not within the limit
+func waitQuiescent(limit time.Duration) bool {
+	seen := 0
+	for t0 := time.Now(); time.Since(t0) < limit; {
+		if q, _ := quiescent(dumpAll()); q {
+			seen++
+			if seen >= 2 {
+				return true
+			}
+		} else {
+			seen = 0
+		}
+		time.Sleep(200 * time.Microsecond)
+	}
+	return false
 }
 
 // ---------------------------------------------------------------- recorder
@@ -512,8 +684,16 @@ type opSpec struct {
 	T      int      `json:"t,omitempty"`
 	V      string   `json:"v,omitempty"`
 	Via    string   `json:"via,omitempty"`
+	Pub    string   `json:"pub,omitempty"` // "fail": conn.Publish fails for this call
 	Pause  int      `json:"pause,omitempty"`
 	During []opSpec `json:"during,omitempty"`
+}
+
+// a value a read returned, kept to be looked at again after later calls
+type heldValue struct {
+	of  string
+	txs []*blockchain.Transaction
+	was []int
 }
 
 type session struct {
@@ -521,14 +701,30 @@ type session struct {
 	in   *inst
 	last *snapJSON
 	dead bool
+	held []heldValue
+	mode string
+	// life mode
+	foreignSeen int
+	disturbed   bool
 }
 
-func (s *session) reset(c poolCfg) {
+func (s *session) reset(c poolCfg) { s.resetMode(c, "") }
+
+func (s *session) resetMode(c poolCfg, mode string) {
+	s.flushHeld()
 	s.in = newInst(c)
 	s.dead = false
 	s.last = &snapJSON{}
+	s.held = nil
+	s.mode = mode
+	s.foreignSeen = 0
+	s.disturbed = false
 	s.rec.meta["sequences"]++
-	s.rec.emit(map[string]interface{}{"op": "reset", "max": s.in.cfg.Max, "acc": s.in.cfg.Acc, "diff": s.in.cfg.Diff, "minp": s.in.cfg.MinP})
+	line := map[string]interface{}{"op": "reset", "max": s.in.cfg.Max, "acc": s.in.cfg.Acc, "diff": s.in.cfg.Diff, "minp": s.in.cfg.MinP}
+	if mode != "" {
+		line["mode"] = mode
+	}
+	s.rec.emit(line)
 }
 
 // snapshot under the watchdog (the snapshot takes the pool read lock)
@@ -538,17 +734,47 @@ func (s *session) snapshot() (*snapJSON, outcome) {
 	return sn, o
 }
 
+// contentID: the universe id of a returned transaction, judged by its content (0 = nil, unknown or changed)
+func contentID(t *blockchain.Transaction) int {
+	if t == nil {
+		return 0
+	}
+	id, ok := idOf[string(t.ID)]
+	if !ok {
+		return 0
+	}
+	if string(t.Bytes()) != def(id).enc {
+		return 0
+	}
+	return id
+}
+
 func ids(txs []*blockchain.Transaction) []int {
 	r := []int{}
 	for _, t := range txs {
-		if t == nil {
-			r = append(r, 0)
-			continue
-		}
-		r = append(r, idOf[string(t.ID)])
+		r = append(r, contentID(t))
 	}
 	sort.Ints(r)
 	return r
+}
+
+func (s *session) hold(of string, txs []*blockchain.Transaction, was []int) {
+	if len(s.held) < 8 {
+		s.held = append(s.held, heldValue{of: of, txs: txs, was: append([]int{}, was...)})
+	}
+}
+
+// flushHeld: every value handed out by an earlier read of this pool instance is read again (the same slice, the same
+// transaction objects) and recorded next to what it held when it was returned
+func (s *session) flushHeld() {
+	if s.in == nil || s.dead {
+		s.held = nil
+		return
+	}
+	for _, h := range s.held {
+		s.rec.emit(map[string]interface{}{"op": "recheck", "of": h.of, "was": h.was, "now": ids(h.txs)})
+	}
+	s.held = nil
 }
 
 // do executes one operation on the real pool and records it. Returns false when the instance must be abandoned.
@@ -560,7 +786,16 @@ func (s *session) do(o opSpec) bool {
 }
 
 func (s *session) doPlain(o opSpec, extra map[string]interface{}) bool {
-	line := map[string]interface{}{"op": o.Op}
+	line, out, emitted := s.exec(o, extra)
+	if emitted {
+		return true
+	}
+	return s.finish(line, out)
+}
+
+// exec runs one call under the watchdog; emitted = the line needs no snapshot and has been written already
+func (s *session) exec(o opSpec, extra map[string]interface{}) (line map[string]interface{}, out outcome, emitted bool) {
+	line = map[string]interface{}{"op": o.Op}
 	for k, v := range extra {
 		line[k] = v
 	}
@@ -571,50 +806,77 @@ func (s *session) doPlain(o opSpec, extra map[string]interface{}) bool {
 		line["via"] = o.Via
 	}
 	if o.Op == "verdict" {
-		s.in.abi.mu.Lock()
-		s.in.abi.verdict[o.T] = o.V
-		s.in.abi.mu.Unlock()
+		s.in.abi.setVerdict(o.T, o.V)
 		v := o.V
 		if v == "error" {
 			v = "invalid"
 		}
 		line["v"] = v
 		s.rec.emit(line)
-		return true
+		return line, outcome{}, true
 	}
 	if o.Op == "reorg" {
 		s.rec.emit(map[string]interface{}{"op": "intent", "what": o.Op})
 	}
-	var out outcome
 	pool := s.in.pool
+	abi := s.in.abi
 	switch o.Op {
 	case "add":
-		var res bool
-		out = guarded(func() { res = pool.Add(def(o.T).tx) })
-		line["res"] = tj.B(res)
+		d := def(o.T)
+		if o.Pub == "fail" {
+			line["pub"] = "fail"
+			s.in.conn.setFail(d.enc, true)
+			s.rec.meta["adds_with_publish_failure"]++
+		}
+		if o.Via == "announce" {
+			// a peer announces the transaction: the handler the pool registered with the network
+			ev := p2p.NewEvent(p2p.PeerID("peer"), txpool.RPCEventPostTransactionAnnouncement, []byte(d.enc))
+			before := false
+			for _, id := range s.pooled() {
+				before = before || id == o.T
+			}
+			out = guarded(func() { abi.beginOp(); s.in.conn.announce(ev) })
+			line["res"] = 0
+			line["was_pooled"] = tj.B(before)
+		} else {
+			var res bool
+			out = guarded(func() { abi.beginOp(); res = pool.Add(d.tx) })
+			line["res"] = tj.B(res)
+		}
+		if o.Pub == "fail" {
+			s.in.conn.setFail(d.enc, false)
+		}
 	case "remove":
 		var res bool
-		out = guarded(func() { res = pool.Remove(def(o.T).tx.ID) })
+		out = guarded(func() { abi.beginOp(); res = pool.Remove(def(o.T).tx.ID) })
 		line["res"] = tj.B(res)
 	case "reorg":
-		out = guarded(func() { pool.VerifReorgOnce() })
+		out = guarded(func() { abi.beginOp(); pool.VerifReorgOnce() })
 	case "get":
 		var ok bool
 		var tx *blockchain.Transaction
-		out = guarded(func() { tx, ok = pool.Get(def(o.T).tx.ID) })
-		line["res"] = tj.B(ok && tx != nil && bytes.Equal(tx.ID, def(o.T).tx.ID))
+		out = guarded(func() { abi.beginOp(); tx, ok = pool.Get(def(o.T).tx.ID) })
+		hit := ok && tx != nil && bytes.Equal(tx.ID, def(o.T).tx.ID)
+		line["res"] = tj.B(hit)
+		if hit {
+			s.hold("get", []*blockchain.Transaction{tx}, []int{contentID(tx)})
+		}
 	case "getall":
 		var r []int
-		out = guarded(func() { r = ids(pool.GetAll()) })
+		var txs []*blockchain.Transaction
+		out = guarded(func() { abi.beginOp(); txs = pool.GetAll(); r = ids(txs) })
 		line["res"] = r
+		s.hold("getall", txs, r)
 	case "getprocessable":
 		var r []int
-		out = guarded(func() { r = ids(pool.GetProcessable()) })
+		var txs []*blockchain.Transaction
+		out = guarded(func() { abi.beginOp(); txs = pool.GetProcessable(); r = ids(txs) })
 		line["res"] = r
+		s.hold("getprocessable", txs, r)
 	default:
 		panic("unknown op " + o.Op)
 	}
-	return s.finish(line, out)
+	return line, out, false
 }
 
 // finish records the outcome of a call: blocked / panic, else the snapshot taken right after it
@@ -638,6 +900,9 @@ func (s *session) finish(line map[string]interface{}, out outcome) bool {
 		return false
 	}
 	sn, so := s.snapshot()
+	if so.Waited {
+		line["disturbed"] = 1 // the snapshot had to wait for the promotion step the harness was holding
+	}
 	if so.Blocked || so.Panic != "" {
 		line["op"] = "snapshot"
 		line["after"] = op
@@ -652,6 +917,25 @@ func (s *session) finish(line map[string]interface{}, out outcome) bool {
 		s.dead = true
 		return false
 	}
+	if s.mode == "life" && op != "reorg" {
+		// A promotion step of the pool's own ticker changes nothing before it has asked the verifier.  No verifier call
+		// from another goroutine up to now = no such step has touched the state this line describes.
+		if f := s.in.abi.foreignCalls(); f != s.foreignSeen {
+			s.foreignSeen = f
+			s.disturbed = true
+			line["disturbed"] = 1
+			s.rec.meta["life_lines_disturbed_by_a_tick"]++
+		}
+	}
+	if v, ok := line["was_pooled"]; ok {
+		// the announcement handler reports nothing: what it did is read from the snapshot
+		now := false
+		for _, id := range sn.All {
+			now = now || id == line["t"].(int)
+		}
+		line["res"] = tj.B(now && v.(int) == 0)
+		delete(line, "was_pooled")
+	}
 	line["snap"] = sn
 	s.last = sn
 	s.rec.emit(line)
@@ -663,58 +947,100 @@ func (s *session) finish(line map[string]interface{}, out outcome) bool {
 // call; then the step is released and the state at quiescence is recorded.
 // Lines: {"op":"ilv","phase":"suspended"}, the during calls (with "in_ilv":1), {"op":"ilv","phase":"resumed"}.
 // A step with fewer verifier calls than pause is an ordinary "reorg" line.
+// A call that cannot complete while the step is held (a pool that keeps a lock across verification is slow, not
+// stuck) makes the harness let go of the step; what follows is recorded as one "merged" line (invariants only).
 func (s *session) doIlv(o opSpec) bool {
 	abi := s.in.abi
 	pool := s.in.pool
 	s.rec.emit(map[string]interface{}{"op": "intent", "what": "ilv"})
-	abi.mu.Lock()
-	abi.pauseAt = o.Pause
-	abi.mu.Unlock()
+	abi.setPause(o.Pause)
 	done := make(chan struct{})
 	msg := ""
 	go verifGuardedCall(func() { pool.VerifReorgOnce() }, &msg, done)
-	unpause := func() {
-		abi.mu.Lock()
-		abi.pauseAt = 0
-		abi.mu.Unlock()
-	}
 	select {
 	case <-done:
-		unpause()
+		abi.setPause(0)
 		return s.finish(map[string]interface{}{"op": "reorg"}, outcome{Panic: msg})
 	case <-abi.paused:
 	}
-	unpause()
+	abi.setPause(0)
+	released := false
+	onBlocked = func() bool {
+		if released {
+			return false
+		}
+		released = true
+		abi.letGo()
+		return true
+	}
+	defer func() { onBlocked = nil }()
 	release := func() {
-		close(abi.release)
-		abi.release = make(chan struct{})
+		if !released {
+			released = true
+			abi.letGo()
+		}
+	}
+	// the whole step ends (after the release); returns the outcome of the step
+	wait := func() outcome {
+		release()
+		if await(done) {
+			st, ch := describeStuck()
+			return outcome{Blocked: true, Stack: st, BlockedIn: ch}
+		}
+		return outcome{Panic: msg}
 	}
 	// let the goroutines of the other senders finish: everything but the suspended goroutine is waiting
-	for t0 := time.Now(); time.Since(t0) < 2*time.Second; {
-		if q, _ := quiescent(dumpAll()); q {
-			break
-		}
-		time.Sleep(50 * time.Microsecond)
+	if !waitQuiescent(3 * time.Second) {
+		// a starved machine: the other senders' steps are still running, nothing can be said about the order of events
+		s.rec.meta["ilv_steps_given_up_not_quiescent"]++
+		return s.finish(map[string]interface{}{"op": "ilv", "phase": "resumed", "merged": 1, "pause": o.Pause}, wait())
 	}
-	if !s.finish(map[string]interface{}{"op": "ilv", "phase": "suspended", "pause": o.Pause}, outcome{}) {
+	// the suspended line (own snapshot handling: a snapshot that had to wait for the step is no suspension)
+	susp := map[string]interface{}{"op": "ilv", "phase": "suspended", "pause": o.Pause, "calls": abi.takeCalls()}
+	sn, so := s.snapshot()
+	if so.Waited {
+		s.rec.meta["ilv_ops_waited_for_suspended_step"]++
+		return s.finish(map[string]interface{}{"op": "ilv", "phase": "resumed", "merged": 1, "pause": o.Pause, "calls_before": susp["calls"]}, wait())
+	}
+	if so.Blocked || so.Panic != "" {
+		susp["op"] = "snapshot"
+		susp["after"] = "ilv"
+		if so.Blocked {
+			susp["blocked"] = 1
+			susp["blockedin"] = so.BlockedIn
+			susp["stack"] = so.Stack
+		} else {
+			susp["panic"] = so.Panic
+		}
+		s.rec.emit(susp)
+		s.dead = true
 		release()
 		return false
 	}
+	susp["snap"] = sn
+	s.last = sn
+	s.rec.emit(susp)
 	for _, d := range o.During {
-		if !s.doPlain(d, map[string]interface{}{"in_ilv": 1}) {
+		line, out, emitted := s.exec(d, map[string]interface{}{"in_ilv": 1})
+		if emitted {
+			continue
+		}
+		if out.Waited || released {
+			// the call returned only after the step was let go: the two are recorded together
+			s.rec.meta["ilv_ops_waited_for_suspended_step"]++
+			s.in.abi.takeCalls()
+			return s.finish(map[string]interface{}{"op": "ilv", "phase": "resumed", "merged": 1, "pause": o.Pause, "with": d.Op}, wait())
+		}
+		if !s.finish(line, out) {
 			release()
 			return false
 		}
+		if released { // the snapshot of the call had to wait for the step
+			s.rec.meta["ilv_ops_waited_for_suspended_step"]++
+			return s.finish(map[string]interface{}{"op": "ilv", "phase": "resumed", "merged": 1, "pause": o.Pause, "with": d.Op}, wait())
+		}
 	}
-	release()
-	var out outcome
-	if await(done) {
-		st, ch := describeStuck()
-		out = outcome{Blocked: true, Stack: st, BlockedIn: ch}
-	} else {
-		out = outcome{Panic: msg}
-	}
-	return s.finish(map[string]interface{}{"op": "ilv", "phase": "resumed", "pause": o.Pause}, out)
+	return s.finish(map[string]interface{}{"op": "ilv", "phase": "resumed", "pause": o.Pause}, wait())
 }
 
 // ---------------------------------------------------------------- random generation
@@ -727,6 +1053,9 @@ func randCfg(r *rand.Rand) poolCfg {
 		Acc:  pick(r, []int{1, 2, 2, 3, 3, 4, 64}),
 		Diff: pick(r, []uint64{0, 1, 2, 200, 201}),
 		MinP: pick(r, []uint64{0, 0, 1, 1, 2}),
+	}
+	if feeBase != 0 {
+		c.Max, c.MinP = 50, 0
 	}
 	return c
 }
@@ -786,7 +1115,14 @@ func (s *session) genOps(r *rand.Rand) []opSpec {
 	x := r.Intn(100)
 	switch {
 	case x < 52:
-		return []opSpec{{Op: "add", T: s.genAdd(r), Via: "api"}}
+		o := opSpec{Op: "add", T: s.genAdd(r), Via: "api"}
+		switch y := r.Intn(20); {
+		case y == 0:
+			o.Pub = "fail" // the network refuses the announcement of this transaction
+		case y == 1:
+			o.Via = "announce" // the transaction arrives as an announcement from a peer
+		}
+		return []opSpec{o}
 	case x < 62:
 		if len(pooled) > 0 && r.Intn(5) > 0 {
 			return []opSpec{{Op: "remove", T: pick(r, pooled), Via: "api"}}
@@ -848,13 +1184,32 @@ func runSeq(rec *recorder, r *rand.Rand, nseq int) {
 	for q := 0; q < nseq; q++ {
 		s.reset(randCfg(r))
 		n := 8 + r.Intn(30)
+		// in every second sequence the values of two reads in the middle are kept, the same reads are made again at the
+		// end (after further calls) and the kept values are looked at once more
+		keep := -1
+		if q%2 == 0 {
+			keep = n/3 + r.Intn(n/3+1)
+		}
 		for i := 0; i < n && !s.dead; i++ {
+			if i == keep {
+				s.do(opSpec{Op: "getall"})
+				if !s.dead {
+					s.do(opSpec{Op: "getprocessable"})
+				}
+			}
 			for _, o := range s.genOps(r) {
-				if !s.do(o) {
+				if s.dead || !s.do(o) {
 					break
 				}
 			}
 		}
+		if keep >= 0 && !s.dead {
+			s.do(opSpec{Op: "getall"})
+			if !s.dead {
+				s.do(opSpec{Op: "getprocessable"})
+			}
+		}
+		s.flushHeld()
 	}
 }
 
@@ -868,7 +1223,7 @@ func runIlv(rec *recorder, r *rand.Rand, nseq int) {
 		}
 		c.MinP = 0
 		s.reset(c)
-		if r.Intn(2) == 0 {
+		if r.Intn(3) > 0 {
 			// targeted shape: a sender's run is promoted, extended, and the next step is suspended while
 			// one transaction of the run / of the extension is removed or replaced
 			sd := 1 + r.Intn(nSenders)
@@ -886,14 +1241,26 @@ func runIlv(rec *recorder, r *rand.Rand, nseq int) {
 			if s.dead {
 				continue
 			}
+			// sometimes one transaction of the run is answered invalid in the suspended step: the step then drops a part of
+			// the run it read while the list changes under it
+			maxPause := len(run)
+			if r.Intn(3) == 0 {
+				bi := r.Intn(len(run))
+				s.do(opSpec{Op: "verdict", T: run[bi], V: "invalid"})
+				maxPause = bi + 1 // the verifier is not asked beyond the first invalid answer
+			}
 			victim := def(pick(r, run))
+			if k1 < len(run) && r.Intn(2) == 0 {
+				victim = def(pick(r, run[k1:])) // one of those the suspended step is about to promote
+			}
 			var d opSpec
-			if r.Intn(3) > 0 {
+			if r.Intn(2) > 0 {
 				d = opSpec{Op: "remove", T: victim.ID}
 			} else {
 				d = opSpec{Op: "add", T: txID(sd, nonceIdx(victim.Nonce), 4, r.Intn(nVariants))}
 			}
-			s.do(opSpec{Op: "ilv", Pause: 1 + r.Intn(len(run)), During: []opSpec{d}})
+			s.do(opSpec{Op: "ilv", Pause: 1 + r.Intn(maxPause), During: []opSpec{d}})
+			s.flushHeld()
 			continue
 		}
 		rounds := 1 + r.Intn(3)
@@ -937,10 +1304,39 @@ func runIlv(rec *recorder, r *rand.Rand, nseq int) {
 			}
 			s.do(opSpec{Op: "ilv", Pause: 1 + r.Intn(4), During: during})
 		}
+		s.flushHeld()
 	}
 }
 
-// conc: N goroutines issue random operations on one pool; the snapshot is taken at quiescence
+// what one goroutine of a concurrent run was told by the pool
+type concLog struct {
+	counts    map[string]int
+	attempted map[int]bool
+	added     map[int]bool
+	removes   map[int]bool
+	inval     map[int]bool
+	reads     map[string]map[string]interface{}
+}
+
+func (l *concLog) read(op string, res []int) {
+	k := op + fmt.Sprint(res)
+	if _, ok := l.reads[k]; !ok && len(l.reads) < 40 {
+		l.reads[k] = map[string]interface{}{"op": op, "res": res}
+	}
+}
+
+func keys(m map[int]bool) []int {
+	r := []int{}
+	for k := range m {
+		r = append(r, k)
+	}
+	sort.Ints(r)
+	return r
+}
+
+// conc: N goroutines issue random operations on one pool; what each of them was told is recorded, the snapshot is taken at
+// quiescence.  Promotion steps are issued by several goroutines but never overlap each other: the pool runs them from
+// ONE ticker goroutine, a step that overlaps another step is not a schedule the pool has.
 func runConc(rec *recorder, r *rand.Rand, runs int) {
 	s := &session{rec: rec}
 	for q := 0; q < runs; q++ {
@@ -971,47 +1367,73 @@ func runConc(rec *recorder, r *rand.Rand, runs int) {
 				cand = append(cand, txID(1+r.Intn(2), r.Intn(4), 1+r.Intn(len(uFees)-1), r.Intn(nVariants)))
 			}
 		}
+		// in every second plain run the transactions of the second sender are never removed by a caller
+		removable := cand
+		if profile == "plain" && q%4 == 0 {
+			removable = cand[:5]
+		}
 		seeds := make([]int64, ng)
 		for i := range seeds {
 			seeds[i] = r.Int63()
 		}
-		counts := make([]map[string]int, ng)
+		logs := make([]*concLog, ng)
 		var wg sync.WaitGroup
+		var reorgMu sync.Mutex
 		done := make(chan struct{})
 		var msgs = make([]string, ng)
 		for g := 0; g < ng; g++ {
 			wg.Add(1)
-			counts[g] = map[string]int{}
+			logs[g] = &concLog{counts: map[string]int{}, attempted: map[int]bool{}, added: map[int]bool{}, removes: map[int]bool{},
+				inval: map[int]bool{}, reads: map[string]map[string]interface{}{}}
 			go func(g int) {
 				defer wg.Done()
 				d := make(chan struct{})
+				lg := logs[g]
 				verifGuardedCall(func() {
 					rr := rand.New(rand.NewSource(seeds[g]))
 					for i := 0; i < per; i++ {
 						switch x := rr.Intn(100); {
 						case x < 50:
-							in.pool.Add(def(pick(rr, cand)).tx)
-							counts[g]["add"]++
+							id := pick(rr, cand)
+							lg.attempted[id] = true
+							if in.pool.Add(def(id).tx) {
+								lg.added[id] = true
+							}
+							lg.counts["add"]++
 						case x < 65:
-							in.pool.Remove(def(pick(rr, cand)).tx.ID)
-							counts[g]["remove"]++
+							id := pick(rr, removable)
+							lg.removes[id] = true
+							in.pool.Remove(def(id).tx.ID)
+							lg.counts["remove"]++
 						case x < 85:
+							reorgMu.Lock()
 							in.pool.VerifReorgOnce()
-							counts[g]["reorg"]++
+							reorgMu.Unlock()
+							lg.counts["reorg"]++
 						case x < 90:
-							in.abi.mu.Lock()
-							in.abi.verdict[pick(rr, cand)] = pick(rr, []string{"ok", "invalid", "pending"})
-							in.abi.mu.Unlock()
-							counts[g]["verdict"]++
+							id := pick(rr, cand)
+							v := pick(rr, []string{"ok", "invalid", "pending"})
+							if v == "invalid" {
+								lg.inval[id] = true
+							}
+							in.abi.setVerdict(id, v)
+							lg.counts["verdict"]++
 						case x < 94:
-							in.pool.GetAll()
-							counts[g]["getall"]++
+							lg.read("getall", ids(in.pool.GetAll()))
+							lg.counts["getall"]++
 						case x < 97:
-							in.pool.GetProcessable()
-							counts[g]["getprocessable"]++
+							lg.read("getprocessable", ids(in.pool.GetProcessable()))
+							lg.counts["getprocessable"]++
 						default:
-							in.pool.Get(def(pick(rr, cand)).tx.ID)
-							counts[g]["get"]++
+							id := pick(rr, cand)
+							if tx, ok := in.pool.Get(def(id).tx.ID); ok {
+								got := contentID(tx)
+								if got != id {
+									got = 0 // another transaction than the one asked for
+								}
+								lg.read("get", []int{got})
+							}
+							lg.counts["get"]++
 						}
 					}
 				}, &msgs[g], d)
@@ -1031,13 +1453,51 @@ func runConc(rec *recorder, r *rand.Rand, runs int) {
 			continue
 		}
 		tot := map[string]int{}
-		for _, m := range counts {
-			for k, v := range m {
+		att, added, removes, inval := map[int]bool{}, map[int]bool{}, map[int]bool{}, map[int]bool{}
+		reads := []map[string]interface{}{}
+		seen := map[string]bool{}
+		for _, lg := range logs {
+			for k, v := range lg.counts {
 				tot[k] += v
 				rec.meta["conc_"+k] += v
 			}
+			for k := range lg.attempted {
+				att[k] = true
+			}
+			for k := range lg.added {
+				added[k] = true
+			}
+			for k := range lg.removes {
+				removes[k] = true
+			}
+			for k := range lg.inval {
+				inval[k] = true
+			}
+			var ks []string
+			for k := range lg.reads {
+				ks = append(ks, k)
+			}
+			sort.Strings(ks)
+			for _, k := range ks {
+				if !seen[k] {
+					seen[k] = true
+					reads = append(reads, lg.reads[k])
+				}
+			}
 		}
+		// a verifier answer "invalid" that a caller set and the verifier really gave
+		in.abi.mu.Lock()
+		for k := range in.abi.everBad {
+			inval[k] = true
+		}
+		in.abi.mu.Unlock()
 		line["ops"] = tot
+		line["attempted"] = keys(att)
+		line["added"] = keys(added)
+		line["removes"] = keys(removes)
+		line["inval"] = keys(inval)
+		line["reads"] = reads
+		rec.meta["conc_read_results_checked"] += len(reads)
 		pm := ""
 		for _, m := range msgs {
 			if m != "" {
@@ -1064,6 +1524,223 @@ func runConc(rec *recorder, r *rand.Rand, runs int) {
 	}
 }
 
+// ---------------------------------------------------------------- life: Start / ticker / End, subscribers
+
+type lifeReader struct {
+	mu  sync.Mutex
+	got int
+}
+
+// reader: a subscriber of the pool's events that is alive but sometimes slow, and that consults the pool about what it
+// was told (time.Sleep, not a timer channel: a sleeping goroutine is visibly not stuck)
+func (lr *lifeReader) run(ch <-chan interface{}, pool *txpool.TransactionPool, seed int64, wg *sync.WaitGroup) {
+	defer wg.Done()
+	rr := rand.New(rand.NewSource(seed))
+	for msg := range ch {
+		lr.mu.Lock()
+		lr.got++
+		lr.mu.Unlock()
+		var id []byte
+		if m, ok := msg.(*txpool.EventNewTransactionMessage); ok && m != nil && m.Transaction != nil {
+			id = m.Transaction.ID
+		}
+		switch rr.Intn(4) {
+		case 0:
+		case 1:
+			time.Sleep(time.Duration(200+rr.Intn(1500)) * time.Microsecond)
+		default:
+			time.Sleep(time.Duration(500+rr.Intn(1500)) * time.Microsecond)
+			if id != nil {
+				pool.Get(id)
+			} else {
+				pool.GetProcessable()
+			}
+		}
+	}
+}
+
+// waitTick waits until a promotion step of the pool's own ticker has asked the verifier and everything is parked again
+func (s *session) waitTick(limit time.Duration) (seen, quiet bool) {
+	abi := s.in.abi
+	for t0 := time.Now(); time.Since(t0) < limit; {
+		if abi.foreignCalls() != s.foreignSeen {
+			seen = true
+			break
+		}
+		time.Sleep(2 * time.Millisecond)
+	}
+	if !seen {
+		return false, false
+	}
+	quiet = waitQuiescent(2 * time.Second)
+	s.foreignSeen = abi.foreignCalls()
+	return seen, quiet
+}
+
+// one scenario: the pool runs the way the engine runs it (go Start(), subscribers, announcements from peers, End()).
+// Every call is recorded and validated like in seq mode; the promotion steps are the pool's own (500 ms ticker), the
+// harness only waits for them.
+func (s *session) lifeScenario(r *rand.Rand) (clean bool) {
+	rec := s.rec
+	s.resetMode(poolCfg{Max: 50, Acc: 64, Diff: pick(r, []uint64{0, 1, 2}), MinP: 0}, "life")
+	in := s.in
+	pool := in.pool
+	in.abi.mu.Lock()
+	in.abi.track = true
+	in.abi.mu.Unlock()
+	var rwg sync.WaitGroup
+	readers := []*lifeReader{{}, {}, {}}
+	chans := []<-chan interface{}{pool.Subscribe(txpool.EventTransactionNew), pool.Subscribe(txpool.EventTransactionNew),
+		pool.Subscribe(txpool.EventTransactionAnnouncement)}
+	for i, lr := range readers {
+		rwg.Add(1)
+		go lr.run(chans[i], pool, r.Int63(), &rwg)
+	}
+	startDone := make(chan struct{})
+	go func() { defer close(startDone); pool.Start() }()
+	rec.meta["life_scenarios"]++
+
+	sd := 1 + r.Intn(nSenders)
+	sd2 := 1 + sd%nSenders
+	k := 2 + r.Intn(2)
+	bad := -1
+	if r.Intn(2) == 0 {
+		bad = r.Intn(k + 1)
+	}
+	step := func(o opSpec) bool {
+		if s.dead || s.disturbed {
+			return false
+		}
+		s.do(o)
+		return !s.dead && !s.disturbed
+	}
+	tick := func() bool {
+		if s.dead || s.disturbed {
+			return false
+		}
+		before := 0
+		for _, a := range s.last.Acc {
+			before += len(a.Proc)
+		}
+		seen, quiet := s.waitTick(1600 * time.Millisecond)
+		if !seen {
+			rec.meta["life_waits_without_a_tick"]++
+			return true // the following calls run under the watchdog: a ticker that died holding a lock shows there
+		}
+		rec.meta["life_ticks_seen"]++
+		line := map[string]interface{}{"op": "reorg", "via": "ticker"}
+		if !quiet {
+			line["disturbed"] = 1
+			s.disturbed = true
+		}
+		if !s.finish(line, outcome{}) {
+			return false
+		}
+		after := 0
+		for _, a := range s.last.Acc {
+			after += len(a.Proc)
+		}
+		if after > before {
+			rec.meta["life_promotions_by_the_ticker"]++
+		}
+		return !s.disturbed
+	}
+	// phase A (before the first tick): a run of one sender, one transaction of another, by API and by announcement
+	ok := true
+	for ni := 0; ni < k && ok; ni++ {
+		id := txID(sd, ni, 1+r.Intn(2), r.Intn(nVariants))
+		via := pick(r, []string{"api", "announce", "announce"})
+		if ni == bad {
+			// accepted now, answered invalid when the ticker's promotion step asks again
+			ok = step(opSpec{Op: "add", T: id, Via: via})
+			if ok {
+				ok = step(opSpec{Op: "verdict", T: id, V: "invalid"})
+				if in.abi.foreignCalls() != s.foreignSeen { // a tick may have asked about it before the answer changed
+					s.disturbed = true
+					ok = false
+				}
+			}
+			continue
+		}
+		ok = step(opSpec{Op: "add", T: id, Via: via})
+	}
+	if ok {
+		o := opSpec{Op: "add", T: txID(sd2, 0, 3, 0), Via: "api"}
+		if r.Intn(2) == 0 {
+			o.Pub = "fail"
+		}
+		ok = step(o)
+	}
+	// phase B: the first tick
+	ok = ok && tick()
+	// phase C: announcements back to back while the subscribers are busy with the previous one; reads; a removal
+	for i := 0; i < 3 && ok; i++ {
+		ok = step(opSpec{Op: "add", T: txID(sd2, 1+i, 1+r.Intn(3), r.Intn(nVariants)), Via: "announce"})
+	}
+	if ok {
+		ok = step(opSpec{Op: "getprocessable"})
+	}
+	if ok && len(s.pooled()) > 0 {
+		ok = step(opSpec{Op: "remove", T: pick(r, s.pooled()), Via: pick(r, []string{"api", "block-applied"})})
+	}
+	if ok {
+		ok = step(opSpec{Op: "add", T: txID(sd, k, 2, 0), Via: "api"})
+	}
+	// phase D: the second tick
+	ok = ok && tick()
+	if ok {
+		ok = step(opSpec{Op: "getall"})
+	}
+	clean = ok && !s.disturbed
+	// End: returns, changes nothing, and Start returns after it
+	if s.dead {
+		return false
+	}
+	out := guarded(func() { pool.End() })
+	if !s.finish(map[string]interface{}{"op": "end"}, out) {
+		return false
+	}
+	rec.meta["life_end_returned"]++
+	line := map[string]interface{}{"op": "startexit"}
+	if await(startDone) {
+		st, ch := describeStuck()
+		line["blocked"] = 1
+		line["blockedin"] = ch
+		line["stack"] = st
+		rec.emit(line)
+		s.dead = true
+		return false
+	}
+	rec.meta["life_start_returned_after_end"]++
+	rec.emit(line)
+	// End closed the subscriptions: the readers leave
+	rd := make(chan struct{})
+	go func() { rwg.Wait(); close(rd) }()
+	if !await(rd) {
+		for _, lr := range readers {
+			lr.mu.Lock()
+			rec.meta["life_events_received"] += lr.got
+			lr.mu.Unlock()
+		}
+	}
+	if !s.dead {
+		s.do(opSpec{Op: "get", T: txID(sd, 0, 1, 0)}) // the pool still answers after End
+	}
+	s.flushHeld()
+	return clean
+}
+
+func runLife(rec *recorder, r *rand.Rand, n int) {
+	s := &session{rec: rec}
+	clean := 0
+	for q := 0; q < n+2 && clean < n; q++ {
+		if s.lifeScenario(r) {
+			clean++
+		}
+	}
+	rec.meta["life_scenarios_clean"] += clean
+}
+
 type scriptSeq struct {
 	Cfg poolCfg  `json:"cfg"`
 	Ops []opSpec `json:"ops"`
@@ -1086,12 +1763,13 @@ func runScript(rec *recorder, path string) {
 				break
 			}
 		}
+		s.flushHeld()
 	}
 }
 
 func main() {
 	if len(os.Args) < 5 {
-		fmt.Fprintln(os.Stderr, "usage: c14 seq|ilv|conc|script out.ndjson meta.json <n|script.json>")
+		fmt.Fprintln(os.Stderr, "usage: c14 seq|ilv|conc|life|script out.ndjson meta.json <n|script.json>")
 		os.Exit(2)
 	}
 	mode := os.Args[1]
@@ -1102,6 +1780,20 @@ func main() {
 	}
 	if ms := tj.EnvInt("VERIF_C14_HARDLIMIT_MS", 0); ms > 0 {
 		hardLimit = time.Duration(ms) * time.Millisecond
+	}
+	if b := os.Getenv("VERIF_C14_NONCE_BASE"); b != "" {
+		v, err := strconv.ParseUint(b, 10, 64)
+		if err != nil {
+			panic(err)
+		}
+		nonceBase = v
+	}
+	if b := os.Getenv("VERIF_C14_FEE_BASE"); b != "" {
+		v, err := strconv.ParseUint(b, 10, 64)
+		if err != nil {
+			panic(err)
+		}
+		feeBase = v
 	}
 	buildUniverse()
 	f, err := os.Create(os.Args[2])
@@ -1121,6 +1813,9 @@ func main() {
 	case "conc":
 		n, _ := strconv.Atoi(os.Args[4])
 		runConc(rec, r, n)
+	case "life":
+		n, _ := strconv.Atoi(os.Args[4])
+		runLife(rec, r, n)
 	case "script":
 		runScript(rec, os.Args[4])
 	default:
